@@ -344,8 +344,19 @@ def c12_6(ctx: Ctx):
     la = linear(al.node)
     sp = [(g, c) for g, c in la.all_calls() if src(c.func) == "self._split_block"]
     ctx.check(len(sp) == 1 and la.under(sp[0][0], "self._state.current_block.size"), al, al.node, "alignment splits only a non-empty current block", "changed")
-    st = [g for g in la.stmts if isinstance(g.node, ast.Assign) and src(g.node.targets[0]) == "self._state.current_section.alignment[self._state.current_block]"]
-    ctx.check(len(st) == 1 and src(st[0].node.value) == "alignment" and sp and sp[0][0].index < st[0].index, al, al.node, "the alignment is recorded on the block that starts after the directive", "changed")
+    from ..astx import single_assign_value as _sav
+
+    def _exp(e: ast.AST) -> str:
+        v = _sav(al.node, e.id) if isinstance(e, ast.Name) else None
+        return src(v) if v is not None and not isinstance(v, ast.Call) else src(e)
+
+    st = [g for g in la.stmts if isinstance(g.node, ast.Assign) and isinstance(g.node.targets[0], ast.Subscript)
+          and _exp(g.node.targets[0].value) == "self._state.current_section.alignment" and _exp(g.node.targets[0].slice) == "self._state.current_block"]
+    # the value is the directive's alignment, possibly combined with what the block already had (C10.12 decides that part)
+    val_ok = len(st) == 1 and (src(st[0].node.value) == "alignment" or (isinstance(st[0].node.value, ast.Call) and src(st[0].node.value.func) == "max"
+                                                                        and any(src(a) == "alignment" for a in st[0].node.value.args)))
+    ctx.check(val_ok and st[0].top and sp and sp[0][0].index < st[0].index, al, al.node, "the alignment is recorded on the block that starts after the directive",
+              "the directive's alignment is no longer recorded (unconditionally, after the split) on the current block")
 
 
 @rule("C12.7", ["C12", "C04"], "attribute sets of an operand only ever grow (target modifier + symbol variant)", 3)
